@@ -372,9 +372,13 @@ def gen_cases(rng, thorough):
                 (["vm1", "vm2"], 1, {"vm1": ("customize", "connect"), "vm2": ("install", "customize")}, None),
                 (["vm2"], 1, {"vm2": ("install", "windows_virtuser")}, None),
                 (["vm1"], 1, {"vm1": ("install", "customize")}, "minimal"),
-                (["vm3"], 2, {"vm3": ("install", "on_customize")}, None)]
+                (["vm3"], 2, {"vm3": ("install", "on_customize")}, None),
+                # a worker that cannot provide the vm variant (net5: only_vm1 = Fedora) listed BEFORE compatible ones:
+                # it is skipped, the workers after it are still updated
+                (["vm1"], rng.choice([["net1", "net5", "net2"], ["net5", "net1"], ["net5", "net2", "net1"]]),
+                 {"vm1": rng.choice([("customize", "customize"), ("install", "customize")])}, None)]
         for vms, nw, ft, rs in plan:
-            nets = rng.sample(NETS, nw)
+            nets = list(nw) if isinstance(nw, list) else rng.sample(NETS, nw)
             cases.append(mk_case(rng, vms, nets, ft, rs))
     else:
         combos = []
@@ -387,7 +391,10 @@ def gen_cases(rng, thorough):
             # mostly the default remove set (a narrower one often does not contain the state: rejected, which the
             # oracle verifies but which exercises nothing else)
             rs = None if rng.random() < 0.7 else rng.choice(REMOVE_SETS)
-            cases.append(mk_case(rng, vms, rng.sample(NETS, nw), ft, rs))
+            nets = rng.sample(NETS, nw)
+            if vm == "vm1" and rng.random() < 0.3:
+                nets.insert(rng.randrange(len(nets)), "net5")      # incompatible with the default CentOS vm1
+            cases.append(mk_case(rng, vms, nets, ft, rs))
         for _ in range(24):
             vms = sorted(rng.sample(["vm1", "vm2", "vm3"], rng.choice([2, 2, 3])))
             ft = {vm: rng.choice(pairs(vm)) for vm in vms}
